@@ -119,7 +119,7 @@ func (r *concRun) call(op, u string) {
 		}()
 		var err error
 		if op == "start" {
-			err = us.comp.Start(context.Background(), componenttest.NewNopHost())
+			err = startC(func(sc context.Context) error { return us.comp.Start(sc, componenttest.NewNopHost()) })
 		} else {
 			err = us.comp.Shutdown(context.Background())
 		}
@@ -255,7 +255,7 @@ func runConc(c cfgT, in, out string, names []string) error {
 			return err
 		}
 		b0 := checkerGoroutines()
-		_ = us[names[0]].comp.Start(context.Background(), componenttest.NewNopHost())
+		_ = startC(func(sc context.Context) error { return us[names[0]].comp.Start(sc, componenttest.NewNopHost()) })
 		b1 := checkerGoroutines()
 		_ = us[names[0]].comp.Shutdown(context.Background())
 		b2 := checkerGoroutines()
@@ -313,4 +313,12 @@ func runConc(c cfgT, in, out string, names []string) error {
 		}
 	}
 	return enc.Encode(cev{"ev": "end"})
+}
+
+// startC calls a component's Start with a context that is cancelled as soon as Start has returned: component.Component
+// says that context "will be cancelled soon", so nothing that has to outlive Start may depend on it.
+func startC(start func(context.Context) error) error {
+	ctx, cancel := context.WithCancel(context.Background())
+	defer cancel()
+	return start(ctx)
 }
